@@ -255,17 +255,15 @@ func (P *Prog) ifEdgesFor(fn *ssa.Function, re string) []struct {
 		if !ok {
 			continue
 		}
-		t, pos := P.condAtom(ifi.Cond, ifi)
 		for i := 0; i < 2; i++ {
-			p := pos
-			if i == 1 {
-				p = !pos
-			}
-			if rx.MatchString(Atom{T: t, Pos: p}.Key()) {
-				out = append(out, struct {
-					B *ssa.BasicBlock
-					I int
-				}{b, i})
+			for _, a := range P.condAtoms(ifi.Cond, ifi, i == 0, 0) {
+				if rx.MatchString(a.Key()) {
+					out = append(out, struct {
+						B *ssa.BasicBlock
+						I int
+					}{b, i})
+					break
+				}
 			}
 		}
 	}
